@@ -19,6 +19,9 @@
 static uint32_t v_eax1, v_ecx1, v_edx1, v_ebx7, v_ecx7, v_xcr0;
 static __thread long cpuid_calls, xgetbv_calls;
 static __thread int emu_on;
+static void **watch_slot;      /* binding slot of the resolver being stepped */
+static void *watch_last;
+static int watch_changes;      /* how many times the slot value changed while the resolver ran */
 
 static void
 on_trap(int sig, siginfo_t *si, void *ucv)
@@ -29,6 +32,10 @@ on_trap(int sig, siginfo_t *si, void *ucv)
         if (!emu_on) {
                 uc->uc_mcontext.gregs[REG_EFL] &= ~0x100ll;
                 return;
+        }
+        if (watch_slot && *watch_slot != watch_last) {
+                watch_changes++;
+                watch_last = *watch_slot;
         }
         for (;;) {
                 const uint8_t *ip = (const uint8_t *) uc->uc_mcontext.gregs[REG_RIP];
@@ -123,10 +130,16 @@ resolve(struct dent *d, obs *o)
         *d->slot = d->mbinit; /* re-arm the binding */
         thunk_target = d->resolver;
         cpuid_calls = xgetbv_calls = 0;
+        watch_slot = d->slot;
+        watch_last = *d->slot;
+        watch_changes = 0;
         emu_on = 1;
         vc_begin();
         vcall((void *) tf_call_thunk, 0, NULL, o);
         emu_on = 0;
+        if (*watch_slot != watch_last)
+                watch_changes++;
+        watch_slot = NULL;
 }
 
 static void
@@ -135,7 +148,8 @@ do_bindall(void)
         discover();
         static char buf[1 << 16];
         int n = sprintf(buf, "[");
-        int abi_bad = 0, faults = 0, statics_bad = 0;
+        int abi_bad = 0, faults = 0, statics_bad = 0, multi = 0;
+        char multiname[80] = "";
         char badname[80] = "";
         for (int i = 0; i < nd; i++) {
                 obs o;
@@ -164,8 +178,12 @@ do_bindall(void)
                         snprintf(badname, sizeof badname, "%s", D[i].name);
                 }
                 /* the resolver may write exactly its own slot (8 bytes) */
-                if (o.static_changed > 8)
+                if (o.static_changed > 8 || o.static_nonbinding)
                         statics_bad++;
+                if (watch_changes > 1) { /* the binding must be published by a single store of its final value */
+                        multi++;
+                        snprintf(multiname, sizeof multiname, "%s", D[i].name);
+                }
         }
         sprintf(buf + n, "]");
         ev_begin("BindAll");
@@ -190,6 +208,8 @@ do_bindall(void)
         ev_str("abi_name", badname);
         ev_int("faults", faults);
         ev_int("statics_bad", statics_bad);
+        ev_int("multi", multi);
+        ev_str("multi_name", multiname);
         ev_end();
 }
 
